@@ -341,13 +341,19 @@ var tokenKeys = []string{"a", "b", "key", "k1", "x_y", "é", "日本", "A-Z"[:1]
 var oddKeys = []string{"b c", "a.b", "", "it's", "q\"r", "back\\slash", "tab\t", "nl\n", "\u2028", "[0]", "*", "$", "@", "a-b", "1+1", "x=y", "\x7f", "\x01", "a,b", "(p)", "�"}
 var dirtyKeys = []string{"\xff", "a\xc3", "\xe2\x80"}
 
+// risky: choose a construct of one of the two remaining known classes (no text form, regex text)
 func (g *objGen) risky() bool { return g.r.Intn(64) < g.dirty }
+
+// free: choose a construct that was a deviation of the pinned tree and is repaired now (descent before a
+// bracket fragment, quote in a union member, invalid UTF-8, integral float, right operand of equal
+// precedence, ! in front of an operator, operator in a function argument, empty list)
+func (g *objGen) free() bool { return g.r.Intn(3) == 0 }
 
 func (g *objGen) key() string {
 	switch k := g.r.Intn(10); {
 	case k < 6:
 		return lib.Pick(g.r, tokenKeys)
-	case k < 9 || !g.risky():
+	case k < 9 || !g.free():
 		return lib.Pick(g.r, oddKeys)
 	default:
 		return lib.Pick(g.r, dirtyKeys)
@@ -402,7 +408,7 @@ func (g *objGen) expr(depth int, operand bool) ExprD {
 			x = append(x, fW())
 		case k == 12:
 			// a descent is safe before a token child or a wildcard (dot form only)
-			if g.risky() {
+			if g.free() {
 				x = append(x, fD())
 			} else if g.r.Bool() {
 				x = append(x, fD(), fC(lib.Pick(g.r, tokenKeys)))
@@ -418,8 +424,8 @@ func (g *objGen) expr(depth int, operand bool) ExprD {
 			for j := 0; j < m; j++ {
 				if g.r.Bool() {
 					ms = append(ms, int64(g.smallInt()))
-				} else if g.risky() {
-					ms = append(ms, lib.Pick(g.r, []string{"it's", "back\\slash"}))
+				} else if g.free() {
+					ms = append(ms, lib.Pick(g.r, []string{"it's", "back\\slash", "\xff", "a\xc3"}))
 				} else {
 					ms = append(ms, lib.Pick(g.r, []string{"a", "b c", "x.y", "é", "", "q\"r", "[0]"}))
 				}
@@ -462,7 +468,10 @@ func (g *objGen) constant() *EqD {
 		return vS(lib.Pick(g.r, append(append([]string{}, tokenKeys...), oddKeys...)))
 	case 6:
 		if g.risky() {
-			return vF(lib.Pick(g.r, []float64{2, -3, 0, 1e6, math.NaN(), math.Inf(1)}))
+			return vF(lib.Pick(g.r, []float64{math.NaN(), math.Inf(1), math.Inf(-1)}))
+		}
+		if g.free() {
+			return vF(lib.Pick(g.r, []float64{2, -3, 0, 1e6, math.Copysign(0, -1)}))
 		}
 		return vF(lib.Pick(g.r, []float64{1.5, -0.25, 1e21, 1e-7, 3.14159, 0.1, 2.5e10 + 0.5}))
 	default:
@@ -472,7 +481,7 @@ func (g *objGen) constant() *EqD {
 
 func (g *objGen) listConst() *EqD {
 	n := 1 + g.r.Intn(4)
-	if g.risky() {
+	if g.r.Intn(8) == 0 {
 		n = 0
 	}
 	var vs []ValD
@@ -499,7 +508,7 @@ func (g *objGen) eqn(depth, budget int, allowNot bool, maxPrec int) *EqD {
 			return g.constant()
 		}
 	}
-	if g.r.Intn(8) == 0 && (allowNot || g.risky()) {
+	if g.r.Intn(8) == 0 && (allowNot || g.free()) {
 		return eNot(g.eqn(depth, budget-1, true, 99))
 	}
 	var cands []string
@@ -510,7 +519,7 @@ func (g *objGen) eqn(depth, budget int, allowNot bool, maxPrec int) *EqD {
 	}
 	if len(cands) == 0 || g.r.Intn(16) == 0 {
 		cands = binOpNames
-		if !g.risky() {
+		if !g.free() {
 			return g.constant()
 		}
 	}
@@ -518,8 +527,8 @@ func (g *objGen) eqn(depth, budget int, allowNot bool, maxPrec int) *EqD {
 	switch op {
 	case "match", "search":
 		r := vS(lib.Pick(g.r, []string{"a.*", "b", "^x", "[a-c]+"}))
-		if g.risky() {
-			r = g.eqn(depth, 1, true, 99)
+		if g.free() {
+			r = g.eqn(depth, 1+g.r.Intn(2), true, 99)
 		}
 		return eBin(op, g.eqn(depth, budget-2, true, 99), r)
 	case "in":
@@ -536,7 +545,7 @@ func (g *objGen) eqn(depth, budget int, allowNot bool, maxPrec int) *EqD {
 	lb := g.r.Intn(budget)
 	leftMax := 99 // the script printer parenthesises a left operand when it must
 	rightMax := precOf[op]
-	if g.risky() {
+	if g.free() {
 		rightMax = 99
 	}
 	return eBin(op, g.eqn(depth, lb, false, leftMax), g.eqn(depth, budget-1-lb, allowNot, rightMax))
